@@ -256,7 +256,13 @@ func (c *labTCPConn) send(data []byte) error {
 	return err
 }
 
-func (c *labTCPConn) close() { c.conn.Close() }
+// close resets the connection (no TIME_WAIT): long runs must not exhaust the local port range
+func (c *labTCPConn) close() {
+	if tc, ok := c.conn.(*net.TCPConn); ok {
+		tc.SetLinger(0)
+	}
+	c.conn.Close()
+}
 
 func (c *labTCPConn) isDead() bool { return atomic.LoadInt32(&c.dead) != 0 }
 
